@@ -1135,7 +1135,8 @@ func BinOp(op string, l, r Val) (Val, *ctl) {
 			return ipow(a, b), nil
 		case "<<":
 			if b < 0 {
-				return nil, unspec("negative shift")
+				// a shift by a negative amount has no value: a fatal value error (both backends)
+				return nil, fatal("ValueError", "")
 			}
 			if b >= 64 {
 				return int64(0), nil
@@ -1143,7 +1144,8 @@ func BinOp(op string, l, r Val) (Val, *ctl) {
 			return a << uint(b), nil
 		case ">>":
 			if b < 0 {
-				return nil, unspec("negative shift")
+				// a shift by a negative amount has no value: a fatal value error (both backends)
+				return nil, fatal("ValueError", "")
 			}
 			if b >= 64 {
 				if a < 0 {
